@@ -4,6 +4,7 @@ import (
 	"bytes"
 	"fmt"
 	"sort"
+	"strings"
 )
 
 // Alignable is an interface that should implements Align() and String()  method
@@ -39,18 +40,27 @@ type Lines []*Line
 func (l Lines) Align() {
 	var maxLength int
 
+	// The trailing comment follows the LAST line of a statement (a block statement spans several lines),
+	// so the width to align is the width of that line - not the length of the whole buffer,
+	// which also counts empty lines that are squeezed later
 	for i := range l {
-		if len(l[i].Buffer) > maxLength {
-			maxLength = len(l[i].Buffer)
+		if n := lastLineLength(l[i].Buffer); n > maxLength {
+			maxLength = n
 		}
 	}
 
-	// Alignment
-	format := fmt.Sprintf("%%-%ds", maxLength)
-
 	for i := range l {
-		l[i].Buffer = fmt.Sprintf(format, l[i].Buffer)
+		if n := maxLength - lastLineLength(l[i].Buffer); n > 0 {
+			l[i].Buffer += strings.Repeat(" ", n)
+		}
 	}
+}
+
+func lastLineLength(s string) int {
+	if p := strings.LastIndex(s, "\n"); p >= 0 {
+		return len(s) - p - 1
+	}
+	return len(s)
 }
 
 // Implements Alignable interface
